@@ -199,6 +199,8 @@ def observe_case(item):
         ents = {}
         for v in m.variables:
             ents[v.name.lower()] = v.permission
+            if v.permission == "protected" or "protected" in [a.lower() for a in (v.attribs or [])]:
+                ents[v.name.lower() + "@protected"] = True
         for t in m.types:
             ents[t.name.lower()] = t.permission
             for c in getattr(t, "_vf_own_vars", t.variables):
@@ -292,6 +294,11 @@ def case(arg):
                     kf["type_access"] = cell["type_access"]
                 viol.append({"kf": kf, "w": {"module": mname, "entity": ename, "cell": cell, "expected": exp, "observed": obs,
                                              "source": texts[mname], "seed": seed}})
+            # `protected` is recorded for variables: where the accessibility comes from the declaration alone (no access statement
+            # competes for FORD's single field) the attribute must be found on the variable, whatever the scope default
+            if cell["kind"] == "variable" and cell["attr"] == "protected" and cell["stmt"] == "none" and obs is not None and not got.get(ename + "@protected"):
+                viol.append({"kf": {"kind": "protected_not_recorded", "default": default, "default_placement": placement, "observed": obs},
+                             "w": {"module": mname, "entity": ename, "cell": cell, "observed": obs, "source": texts[mname], "seed": seed}})
     return {"viol": viol, "ncells": ncells, "keys": sorted(keys, key=str),
             "sample": {"seed": seed, "module_source_head": texts[f"cm3x{seed % 1000}"][:1200]}}
 
